@@ -487,7 +487,19 @@ class C38(Prop):
             lens.append(v)
         return {'kind': 'part', 'name': rng.choice(['GRCh38', 'GRCh37']), 'lengths': lens, 'size': size}
 
+    def _named_resume_case(self, rng):
+        """GVCFs with an external header and sample names, input datasets still to merge after the last GVCF step, stop/resume at EVERY
+        step boundary"""
+        bf = rng.randint(2, 6)
+        batch = rng.randint(1, 3)
+        g = rng.choice([1, 2, bf, bf + 1, bf * batch, bf * batch + 1, rng.randint(1, 4 * bf)])
+        vds = [rng.choice([1, 2, bf, bf * bf, rng.randint(1, 80)]) for _ in range(rng.randint(1, 5))]
+        k = 2 * g + len(vds) + 2
+        return {'kind': 'plan', 'bf': bf, 'batch': batch, 'g': g, 'names': 1, 'vds': vds, 'resume': [1] * k}
+
     def _plan_case(self, rng):
+        if rng.random() < 0.2:
+            return self._named_resume_case(rng)
         bf = rng.randint(2, 12)
         batch = rng.randint(1, 20)
         r = rng.random()
@@ -562,6 +574,12 @@ class C38(Prop):
         return out
 
     def model_lines(self, c):
+        try:
+            return self._model_lines(c)
+        except Exception as e:  # noqa: BLE001
+            return [f'unmodelled {type(e).__name__}']      # answered `bad-op` by the driver: a mismatch, not a crash
+
+    def _model_lines(self, c):
         if c['kind'] == 'part':
             return [f'part {L} {c["size"]}' for L in c['lengths']]
         if c['kind'] == 'crash':
@@ -569,14 +587,14 @@ class C38(Prop):
             vs = []
             for i, n in enumerate(c['vds']):
                 vs += [1000 + i, n]
-            return ['reset', ' '.join(map(str, ['init', c['bf'], c['batch'], c['names'], 'G'] + list(range(c['g'])) + ['V'] + vs + ['F']
+            return ['reset', ' '.join(map(str, ['init', c['bf'], c['batch'], 1 if (c['names'] and c['g'] > 0) else 0, 'G'] + list(range(c['g'])) + ['V'] + vs + ['F']
                                           + self._anomalies(c)))] + r['trace']
         g = c['g']
         vs = []
         for i, n in enumerate(c['vds']):
             vs += [1000 + i, n]
         lines = ['reset',
-                 ' '.join(map(str, ['init', c['bf'], c['batch'], c['names'], 'G'] + list(range(g)) + ['V'] + vs + ['F'] + self._anomalies(c)))]
+                 ' '.join(map(str, ['init', c['bf'], c['batch'], 1 if (c['names'] and g > 0) else 0, 'G'] + list(range(g)) + ['V'] + vs + ['F'] + self._anomalies(c)))]
         ivline = 'ivrt ' + ' '.join(map(str, self._iv_tokens(c)))
         legal = c['bf'] >= 2 and c['batch'] >= 1     # a refused constructor leaves nothing to reload
         real_len = len(self._iv_tokens(c)) // 6
@@ -689,7 +707,7 @@ class C38(Prop):
         self.fs.files.clear()
         g = c['g']
         gv = [f'g{i}' for i in range(g)]
-        names = [f'n{i}' for i in range(g)] if c['names'] else None
+        names = [f'n{i}' for i in range(g)] if (c['names'] and g > 0) else None   # a fresh combiner without GVCFs carries no header
         mds = []
         for i, n in enumerate(c['vds']):
             p = f'v{1000 + i}'
@@ -719,20 +737,32 @@ class C38(Prop):
         except ValueError:
             return ['ok'] + ['err'] * n_lines, rec, None
         lines = ['ok', self._dump(comb)]
-        for i, r in enumerate(c['resume']):
-            if r:
-                comb.save()
-                saved = comb
-                comb = vdc.VariantDatasetCombiner.load('/plans/plan.json')
+        self.plan_problem = None
+        doing = 'construct'
+        try:
+            for i, r in enumerate(c['resume']):
+                if r:
+                    doing = f'save() before step {i + 1}'
+                    comb.save()
+                    saved = comb
+                    doing = f'load() of the plan saved before step {i + 1} (plan: {lines[-1]})'
+                    comb = vdc.VariantDatasetCombiner.load('/plans/plan.json')
+                    lines.append(self._dump(comb))
+                    lines.append(show_ivs(comb._gvcf_import_intervals))
+                    self._check_load(c, saved, comb, contigs, lens)
+                for (at, v) in c.get('setter', []):
+                    if at == i:
+                        doing = f'gvcf_batch_size = {v} before step {i + 1}'
+                        comb.gvcf_batch_size = v
+                        lines.append(self._dump(comb) + f' batch={comb._gvcf_batch_size}')
+                doing = f'step {i + 1} (plan: {lines[-1]})'
+                comb.step()
                 lines.append(self._dump(comb))
-                lines.append(show_ivs(comb._gvcf_import_intervals))
-                self._check_load(c, saved, comb, contigs, lens)
-            for (at, v) in c.get('setter', []):
-                if at == i:
-                    comb.gvcf_batch_size = v
-                    lines.append(self._dump(comb) + f' batch={comb._gvcf_batch_size}')
-            comb.step()
-            lines.append(self._dump(comb))
+        except Exception as e:  # noqa: BLE001   whatever the real code raises is an outcome to judge, never a harness crash
+            self.plan_problem = f'{doing} raised {type(e).__name__}: {e}'
+            want = 2 + sum(1 + (2 * r if (c['bf'] >= 2 and c['batch'] >= 1) else r) for r in c['resume']) \
+                + sum(1 for (at, _v) in c.get('setter', []) if at < len(c['resume']) and c['bf'] >= 2 and c['batch'] >= 1)
+            lines += [f'exc {type(e).__name__}'] * max(0, want - len(lines))
         return lines, rec, comb
 
     def _check_load(self, c, saved, loaded, contigs, lens):
@@ -799,7 +829,7 @@ class C38(Prop):
         FakeVDS.output_path = '/out/final.vds'
         self.fs.files.clear()
         g = c['g']
-        names = [f'n{i}' for i in range(g)] if c['names'] else None
+        names = [f'n{i}' for i in range(g)] if (c['names'] and g > 0) else None   # a fresh combiner without GVCFs carries no header
         mds = []
         for i, n in enumerate(c['vds']):
             p = f'v{1000 + i}'
@@ -808,13 +838,19 @@ class C38(Prop):
             mds.append(vdc.VDSMetadata(p, n))
         contigs = self.CONTIGS38
         self.rg = self.ReferenceGenome('GRCh38', contigs, dict(zip(contigs, [1] * 25)), _builtin=True)
-        comb = vdc.VariantDatasetCombiner(
-            save_path='/plans/plan.json', output_path=FakeVDS.output_path, temp_path='/tmp/t', reference_genome=self.rg,
-            dataset_type=vdc.CombinerOutType(FakeTM('ref'), FakeTM('var')), branch_factor=c['bf'], gvcf_batch_size=c['batch'],
-            call_fields=['PGT'], vdses=mds, gvcfs=[f'g{i}' for i in range(g)], gvcf_sample_names=names,
-            gvcf_external_header='hdr' if names is not None else None, gvcf_import_intervals=[])
-        self.trace, self.trace_lines = [], ['ok', self._dump(comb)]
         res = {'problem': None, 'faulted': 0}
+        try:
+            comb = vdc.VariantDatasetCombiner(
+                save_path='/plans/plan.json', output_path=FakeVDS.output_path, temp_path='/tmp/t', reference_genome=self.rg,
+                dataset_type=vdc.CombinerOutType(FakeTM('ref'), FakeTM('var')), branch_factor=c['bf'], gvcf_batch_size=c['batch'],
+                call_fields=['PGT'], vdses=mds, gvcfs=[f'g{i}' for i in range(g)], gvcf_sample_names=names,
+                gvcf_external_header='hdr' if names is not None else None, gvcf_import_intervals=[])
+        except Exception as e:  # noqa: BLE001
+            res.update(problem=f'the constructor refused a legal configuration: {type(e).__name__}: {e}', trace=[], lines=['ok', 'exc ' + type(e).__name__],
+                       finals=[], errors=[], finished=False, last='', merges=[])
+            self.crash_cache[key] = res
+            return res
+        self.trace, self.trace_lines = [], ['ok', self._dump(comb)]
         rec.fault_kind = c.get('fault_kind', 'exc')
         for k in list(c['faults']) + [0]:
             rec.ops, rec.fault_at = 0, k
@@ -826,6 +862,9 @@ class C38(Prop):
                 res['faulted'] += 1
             except HarnessAbort:
                 res['problem'] = f'run() issued more than 5000 engine calls without finishing (plan: {self._dump(comb)})'
+                break
+            except Exception as e:  # noqa: BLE001
+                res['problem'] = f'run() raised {type(e).__name__}: {e} (plan: {self._dump(comb)})'
                 break
             finally:
                 self.trace_active = False
@@ -884,6 +923,8 @@ class C38(Prop):
             return None if not legal else 'constructor refused a legal configuration'
         if not legal:
             return f'constructor accepted branch_factor={c["bf"]}, gvcf_batch_size={c["batch"]}'
+        if self.plan_problem:
+            return 'the combiner does not complete: ' + self.plan_problem
         if rec.errors:
             return rec.errors[0]
         if self.load_problems:
@@ -919,9 +960,21 @@ class C38(Prop):
     def oracle(self, c, out):
         if out and out[0].startswith('IMPL-EXC'):
             return out[0]
+        try:
+            return self._oracle(c)
+        except Exception as e:  # noqa: BLE001   the real code raised where no outcome was expected: that is a failure to report
+            return f'the real code raised {type(e).__name__}: {e}'
+
+    def _oracle(self, c):
         return self._oracle_part(c) if c['kind'] == 'part' else self._oracle_crash(c) if c['kind'] == 'crash' else self._oracle_plan(c)
 
     def classify(self, c, out):
+        try:
+            return self._classify(c, out)
+        except Exception:  # noqa: BLE001
+            return (None, [c.get('kind', '?') + ' unclassified (real code raised)'])
+
+    def _classify(self, c, out):
         if c['kind'] == 'part':
             k = max((o.count(',') + 1 for o in out if o not in ('err', '')), default=0)
             tags = ['part ' + ('err' if out and out[0] == 'err' else f'max-intervals-per-contig={min(k, 5)}{"+" if k >= 5 else ""}'),
